@@ -12,10 +12,14 @@ from replay import scenarios  # noqa: E402
 
 def run(name):
     fn = scenarios.SCENARIOS[name]
+    scenarios.HARNESS_BROKEN = None
     try:
-        return asyncio.run(asyncio.wait_for(fn(), 60)), None
+        viol = asyncio.run(asyncio.wait_for(fn(), 60))
     except Exception:
         return [], traceback.format_exc(limit=6)
+    if scenarios.HARNESS_BROKEN:
+        return [], "the harness's own introspection failed: " + scenarios.HARNESS_BROKEN
+    return viol, None
 
 
 def main():
